@@ -521,12 +521,30 @@ func expectedFromDeliveries(sh scanShape, cr *CmdResult) (must, may []record) {
 		closeT[s.ID] = s.CloseT
 		closed[s.ID] = s.CloseT > 0 || cr.Returned
 	}
+	// A scan with many port ranges runs as several consecutive sockets.  A reply belongs to the
+	// socket through which its probe left: a frame whose source port was never probed through the
+	// socket it is offered to (a late duplicate of an earlier phase's reply) may be reported or not.
+	portsOf := map[int]map[int]bool{}
+	if len(cr.Socks) > 1 && sh.Kind == "tcp" {
+		for _, f := range cr.Wire {
+			if p, err := pktcodec.Decode(f.Data, !sh.VPN); err == nil && p.TCP != nil {
+				if portsOf[f.Sock] == nil {
+					portsOf[f.Sock] = map[int]bool{}
+				}
+				portsOf[f.Sock][int(p.TCP.DstPort)] = true
+			}
+		}
+	}
 	for _, d := range cr.Dels {
 		rec, ok := sh.replyRecord(d.Data)
 		if !ok {
 			continue
 		}
-		if ct, ok := closeT[d.Sock]; ok && (d.T < ct || !closed[d.Sock]) {
+		own := true
+		if len(cr.Socks) > 1 && sh.Kind == "tcp" {
+			own = portsOf[d.Sock][rec.Port]
+		}
+		if ct, ok := closeT[d.Sock]; ok && (d.T < ct || !closed[d.Sock]) && own {
 			must = append(must, rec)
 		} else {
 			may = append(may, rec)
